@@ -92,7 +92,7 @@ func c16(r *mon.Run) {
 	r.Rule = "the JSON-closure monitor (type walk: nil, bool, finite float64, string, non-nil []interface{}, non-nil map[string]interface{}; then json.Marshal -> Unmarshal -> deep equality) is applied to every successful result of: (1) the well-typed function matrix of C09 (every function on empty / single / ordinary inputs, the to_number boundary strings, avg/sum/max/min of empty arrays); " +
 		"(2) every construct applied to empty arrays, empty objects, null and missing keys (64 expression templates x 12 documents); (2b) every function x 16 call shapes x 25 element patterns x 36 array lengths on and around internal thresholds (64, 128, … : block-wise arithmetic); (3) seeded random trees of all fragments (expression references only where a function declares one) on random typed documents with moderate numbers. Non-trivial = distinct results that contain a number or an empty container."
 	r.Floor = 500
-	r.Assumptions = []string{"documents are JSON data with numbers of moderate magnitude; expression references are generated only in declared expression-parameter positions (the property's precondition)"}
+	r.Assumptions = []string{"documents are JSON data (the seeded random ones hold numbers of moderate magnitude; every finite magnitude up to the largest float64 is driven by the workload numbers-from-text-at-the-edges-of-the-formats); expression references are generated only in declared expression-parameter positions (the property's precondition)"}
 	u := c09Build()
 	cs := c09Cases(u, r.Tier == "thorough")
 	fm := mon.Workload{Name: "function-matrix", N: len(cs) * 2, Batch: 2000,
